@@ -378,6 +378,23 @@ def gen_step(world, rng, cfg):
         world.pending = ok[1:]
         world.count('gen.walk-motif')
         return ok[0]
+    if cfg.get('scale') and rep.m.removal and not world.comb_done and rng.random() < 0.08:
+        # comb motif: one pair collects 9-16 separate runs (long per-pair timelines: bisection fast
+        # paths, per-pair indexes and thresholds on the number of intervals)
+        world.comb_done = True
+        u, v = gen.pick_pair(rng, rep.m, cfg)
+        runs = rep.m.runs(rep.m.key(u, v))
+        ids = rep.m.instants()
+        t = (runs[-1][1] + 2) if runs else ((ids[0] if ids else cfg['origin']) + rng.randint(0, 2))
+        ops_ = []
+        for _ in range(rng.randint(9, 16)):
+            ln = rng.choice([1, 1, 2, 3, 5])
+            ops_.append({'op': 'add', 'g': rep_i, 'u': u, 'v': v, 't': t,
+                         'e': None if (ln == 1 and rng.random() < 0.5) else t + ln, 'sp': 'pos'})
+            t += ln + rng.randint(1, 2)
+        world.pending = ops_[1:]
+        world.count('gen.comb-motif')
+        return ops_[0]
     x = rng.random()
     fault = None
     if x < cfg['p_fault']:
@@ -656,6 +673,9 @@ def run(focus, seed=None, ops_list=None, profile=None, keep_log=False):
             if 'selfloops' in FOCUS[focus]:
                 cfg['p_selfloop'] = rng.choice(FOCUS[focus]['selfloops'])
             world.check_every = rng.choice([1, 1, 1, 1, 2, 5, 10 ** 6])     # frequent observation can mask stale caches
+            if cfg.get('scale'):
+                world.check_every = rng.choice([5, 10, 10 ** 6])
+                world.count('gen.scale')
             world.poke = rng.random() < 0.5
             world.rec({'check_every': world.check_every, 'poke': world.poke})
             if focus == 'C10' and rng.random() < 0.02:
@@ -670,7 +690,7 @@ def run(focus, seed=None, ops_list=None, profile=None, keep_log=False):
                 cfg['steps'] = min(cfg['steps'], 8)
                 cfg['p_derive'] = 0.5
             if 'steps_cap' in FOCUS[focus]:
-                cfg['steps'] = min(cfg['steps'], FOCUS[focus]['steps_cap'])
+                cfg['steps'] = min(cfg['steps'], FOCUS[focus]['steps_cap'] * (3 if cfg.get('scale') else 1))
             for knob in ('p_fault', 'p_derive', 'p_node'):
                 if knob in FOCUS[focus]:
                     cfg[knob] = rng.choice(FOCUS[focus][knob])
